@@ -131,7 +131,7 @@ func genC12(t *rapid.T) (*C12Case, []string) {
 	}
 	switch kind {
 	case "L":
-		ch := rapid.SampledFrom([]string{"@", "^", "?", "`", "&", "|", "\\", "é", "→", "日", "\x80", "\x97", "\xa9", "\xbf", "\xd7", "\xf7", "\x00", "\x01"}).Draw(t, "char")
+		ch := rapid.SampledFrom([]string{"@", "^", "?", "`", "&", "|", "\\", "é", "→", "日", "\x80", "\x97", "\xa9", "\xbf", "\xd7", "\xf7", "\x00", "\x01", "\x0b", "\x0c", "\x85", "\xa0", "\x1b"}).Draw(t, "char")
 		at := rapid.IntRange(0, len(r.Toks)).Draw(t, "boundary")
 		toks = insertToks(r, at, raw(ch))
 		f0, f1 = at, at
